@@ -77,6 +77,7 @@ class MySQLQueryBuilder(QueryBuilder):
 
     def _on_conflict_action_sql(self, ctx: SqlContext) -> str:
         on_conflict_ctx = ctx.copy(with_namespace=False)
+        value_ctx = on_conflict_ctx.copy(subquery=True)
         if len(self._on_conflict_do_updates) > 0:
             updates = []
             for field, value in self._on_conflict_do_updates:
@@ -84,7 +85,7 @@ class MySQLQueryBuilder(QueryBuilder):
                     updates.append(
                         "{field}={value}".format(
                             field=field.get_sql(on_conflict_ctx),
-                            value=value.get_sql(on_conflict_ctx),
+                            value=value.get_sql(value_ctx),
                         )
                     )
                 else:
